@@ -61,6 +61,8 @@ def short_desc(d, depth=0, names=True):
         return f"{sn}({','.join(short_desc(x, depth + 1) for x in d[2])})"
     if k == "field":
         return f"{short_desc(d[1], depth + 1)}.{d[2]}"
+    if k == "index":
+        return f"{short_desc(d[1], depth + 1)}[{short_desc(d[2], depth + 1)}]"
     if k in ("param", "local"):
         return str(d[2]) if d[2] else f"_{d[1]}"
     if k == "upvar":
@@ -268,6 +270,8 @@ def _norm(d, truth, depth=0):
             return [(("pred", name.rsplit("::", 1)[1], tuple(_strip(x) for x in d[2])), "==", ("lit", truth))]
         if re.search(r"krauss::wildcard_match$", name):
             return [(("pred", "wildcard_match", tuple(_strip(x) for x in d[2])), "==", ("lit", truth))]
+    if d[0] in ("field", "param", "local", "upvar", "index"):
+        return [(_strip(d), "==", ("lit", bool(truth)))]
     if d[0] == "multi":
         # short-circuit && / || lowered to a phi of constants and a sub-condition: only the conjunctive reading is used
         return []
